@@ -73,6 +73,13 @@ pub fn run(args: &crate::Args) {
                     }
                 }
             }
+            // files published without an extension under names that are Rust keywords or clash with generated items
+            if r.chance(1, 3) {
+                let kw = *r.pick(&["type", "static", "mod", "self", "match", "fn", "crate"]);
+                std::fs::write(root.join("in/static").join(format!("kw{pass}")), format!("keyword {kw} {}", r.next())).unwrap();
+                st.add_file_as(format!("static/kw{pass}"), kw).unwrap();
+                refs.push(kw.to_string());
+            }
             let members: Vec<String> = refs.clone();
             // queries: every member, and a few non-members
             let mut queries: Vec<String> = members.clone();
